@@ -185,7 +185,10 @@ def shortestDigits (x : F64) : Nat × Int :=
           else (((d * q : Nat) : Int) - (p * 10 ^ (-e).toNat : Nat), 10 ^ (-e).toNat)
         let (n1, s1) := dist d1 e1
         let (n2, s2) := dist d2 e2
-        if n1.natAbs * s2 ≤ n2.natAbs * s1 then (d1, e1) else (d2, e2)
+        -- closer one; on an exact tie the even last digit (round-half-even, as dtoa does)
+        if n1.natAbs * s2 < n2.natAbs * s1 then (d1, e1)
+        else if n1.natAbs * s2 > n2.natAbs * s1 then (d2, e2)
+        else if d1 % 2 = 0 then (d1, e1) else (d2, e2)
   go 1 17
 
 /-- strip trailing zeros of the digit string, adjusting the exponent -/
